@@ -63,7 +63,7 @@ var profileAfterMain = map[string]func(w *World){
 // such a call has received the message exactly once.
 func afterC06(w *World) {
 	w.grace("grace", false, 10*time.Second, 8000, nil)
-	clean := !w.anyConnFault() && w.net.Stats.DialTimeouts == 0 && w.net.Stats.Refused == 0
+	clean := !w.anyConnFault() && w.net.Snapshot().DialTimeouts == 0 && w.net.Snapshot().Refused == 0
 	for _, c := range w.calls[1:] {
 		if c.InvokeSeq == 0 || (c.Info.Kind != "mcast" && c.Info.Kind != "ucast") {
 			continue
@@ -83,7 +83,7 @@ func afterC06(w *World) {
 	}
 	w.defaultSettle()
 	w.checkCore()
-	clean = !w.anyConnFault() && w.net.Stats.DialTimeouts == 0 && w.net.Stats.Refused == 0 && w.net.Stats.Resets == 0
+	clean = !w.anyConnFault() && w.net.Snapshot().DialTimeouts == 0 && w.net.Snapshot().Refused == 0 && w.net.Snapshot().Resets == 0
 	for _, c := range w.calls[1:] {
 		if c.InvokeSeq == 0 || c.ReqVal == "" || (c.Info.Kind != "mcast" && c.Info.Kind != "ucast") {
 			continue
